@@ -3,7 +3,7 @@ From Coq Require Import List Arith ZArith.
 Import ListNotations.
 From Exmex.Model Require Import Base EvalBinary Lexer Flat.
 From Exmex.Spec Require Import RefSem.
-From Exmex.Proofs Require Import ChainMachine SortedRef EvalBinaryCorrect FlatEval WalkSim C01Main C01Vars Accept.
+From Exmex.Proofs Require Import ChainMachine SortedRef EvalBinaryCorrect FlatEval WalkSim C01Main C01Vars Accept LexSpaced.
 Open Scope nat_scope.
 
 (* The main theorem.  For EVERY data type (carrier C), every operator table whose binary priorities lie in 0..99,
@@ -59,6 +59,35 @@ Proof.
   pose proof (rendering_accepted tb c Hwfc) as Hacc. split; [exact Hacc|].
   destruct (C01_eval_is_reference D C tb R Hwf Hr Hs Ht Hb Hu Ha c text vals Hwfc Hlen) as (fx & v & H1 & H2 & H3 & H4).
   exists fx, v. unfold parse_tokens_wo. rewrite Hacc. cbn [bind]. repeat split; assumption.
+Qed.
+
+(* ... and through the TEXT entry point, for the canonical text rendering of the tree (every token followed by one
+   space, numbers by their Debug text, variables in braces, operators by name: stext), whenever every token of the tree
+   is readable in front of a space (lexable: the literal matcher matches exactly the Debug text of each number and reads it
+   back, matches no operator name, and the tokenizer finds each operator by its name -- which follows from distinct names
+   without spaces, LexSpaced.find_ops_spaced): tokenizing the text gives back the tokens, so parsing the text evaluates to
+   the reference semantics *)
+Theorem C01_text_entry_point :
+  forall (D : Type) (C : carrier D) (tb : optable) (is_literal : str -> option nat) (R : D -> D -> Prop),
+  wf_table tb = true ->
+  (forall a, R a a) -> (forall a b, R a b -> R b a) -> (forall a b c, R a b -> R b c -> R a c) ->
+  (forall k a a' b b', R a a' -> R b b' -> R (binf C k a b) (binf C k a' b')) ->
+  (forall k a a', R a a' -> R (unf C k a) (unf C k a')) ->
+  (forall o, comm_of tb o = true -> forall a b c, R (binf C o (binf C o a b) c) (binf C o a (binf C o b c))) ->
+  forall (c : chain (D:=D)) (vals : list D),
+  wf_chain tb c = true -> Forall (lexable C tb is_literal) (flatten c) ->
+  length vals = length (find_parsed_vars (flatten c)) ->
+  tokenize C tb is_literal (stext C tb (flatten c)) = Ok (flatten c) /\
+  exists fx v,
+    parse_wo_compile C tb true is_literal (stext C tb (flatten c)) = Ok fx /\
+    fvars fx = find_parsed_vars (flatten c) /\
+    eval_flat C fx vals = Ok v /\
+    R v (ref_chain C tb (find_parsed_vars (flatten c)) vals c).
+Proof.
+  intros D C tb is_literal R Hwf Hr Hs Ht Hb Hu Ha c vals Hwfc Hlex Hlen.
+  pose proof (tokenize_spaced C tb is_literal (flatten c) Hlex) as Htok. split; [exact Htok|].
+  destruct (C01_token_entry_point D C tb R Hwf Hr Hs Ht Hb Hu Ha c (stext C tb (flatten c)) vals Hwfc Hlen) as (_ & fx & v & H1 & H2 & H3 & H4).
+  exists fx, v. unfold parse_wo_compile. rewrite Htok. cbn [bind]. repeat split; assumption.
 Qed.
 
 (* when the flagged operators really are associative the two values are EQUAL *)
@@ -132,3 +161,4 @@ Print Assumptions C01_token_entry_point.
 Print Assumptions C01_exact_when_flags_are_sound.
 Print Assumptions C01_free_terms.
 Print Assumptions C01_any_flat_expression_is_precedence.
+Print Assumptions C01_text_entry_point.
